@@ -1906,6 +1906,45 @@ func genC03Torn(w *bufio.Writer, r *rand.Rand, id string, big bool) {
 	fmt.Fprintf(w, "end\n")
 }
 
+// a transaction (or batch) of a few entries in which a LATER-sorted key carries a value that makes
+// its log record exactly one physical record long, or one byte more / less (the place where the
+// single-record and the fragmented form meet); then unrelated writes (the log buffer is written
+// out), a reopen, and the reads: whatever the commit reported, all of it or none of it is there
+func genC03Boundary(w *bufio.Writer, r *rand.Rand, id string) {
+	fmt.Fprintf(w, "case %s mode=seq memsize=100000\n", id)
+	keys := []string{"a", "b", "m", "q", "z"}
+	fmt.Fprintf(w, "put %s %s\n", mkTok([]byte(keys[r.Intn(len(keys))])), mkTok([]byte("old")))
+	n := 2 + r.Intn(3)
+	at := 1 + r.Intn(n-1) // not the first entry in key order
+	perm := r.Perm(len(keys))[:n]
+	sort.Ints(perm)
+	how := []string{"commit", "commit", "commit", "rollback_commit"}[r.Intn(4)]
+	if r.Intn(3) == 0 {
+		fmt.Fprintf(w, "batch %d\n", n)
+	} else {
+		fmt.Fprintf(w, "tx %d %s\n", n, how)
+	}
+	for j, p := range perm {
+		k := []byte(keys[p])
+		if j == at {
+			fmt.Fprintf(w, "p %s @%d:%d\n", mkTok(k), wal.MaxRecordSize-13-4-len(k)+[]int{0, 0, 0, 1, -1}[r.Intn(5)], r.Intn(1<<20))
+		} else if r.Intn(5) == 0 {
+			fmt.Fprintf(w, "d %s\n", mkTok(k))
+		} else {
+			fmt.Fprintf(w, "p %s %s\n", mkTok(k), mkTok([]byte(fmt.Sprintf("n%d", j))))
+		}
+	}
+	fmt.Fprintf(w, "put %s %s\n", mkTok([]byte("tail")), mkTok([]byte("t")))
+	if r.Intn(2) == 0 {
+		fmt.Fprintf(w, "flush\n")
+	}
+	fmt.Fprintf(w, "reopen\n")
+	for _, k := range keys {
+		fmt.Fprintf(w, "get %s\n", mkTok([]byte(k)))
+	}
+	fmt.Fprintf(w, "end\n")
+}
+
 func genC03(w *bufio.Writer, seed int64, n int, tier string) {
 	r := rand.New(rand.NewSource(seed*2654435761 + 3))
 	for ci := 0; ci < n; ci++ {
@@ -1915,6 +1954,8 @@ func genC03(w *bufio.Writer, seed int64, n int, tier string) {
 			genC03Gate(w, r, id)
 		case 5, 13:
 			genC03Conc(w, r, id, tier)
+		case 1:
+			genC03Boundary(w, r, id)
 		case 7:
 			genC03Crash(w, r, id)
 		case 9:
